@@ -287,6 +287,13 @@ def rule_casts(run):
                     t = P.T(a.targets[0])
                     v = src(a.value.value)
                     sides[t] = v
+            # each side is converted under a test of ITS OWN operand only
+            for a in walk_local(n):
+                if isinstance(a, ast.Assign) and len(a.targets) == 1 and isinstance(a.value, ast.Attribute) and a.value.attr == "bitvector":
+                    side_ = "_lhs" if "_lhs" in src(a.targets[0]) else "_rhs"
+                    other_ = "_rhs" if side_ == "_lhs" else "_lhs"
+                    foreign = [src(g.test)[:60] for g in vh.parents.ancestors(a) if isinstance(g, ast.If) and g is not n and any(x is a for x in ast.walk(g)) and other_ in src(g.test) and any(x is g for x in ast.walk(n))]
+                    run.ob(not foreign, "vhdl.BinOp.write[CONCAT]", file=vh.rel, line=a.lineno, detail=f"{side_[1:]}-independent", expected=f"the conversion of {side_[1:]} does not depend on the other operand", found="ok" if not foreign else f"only if {foreign}")
             for side in ("lhs", "rhs"):
                 key = f"self._{side}.result"
                 ok = sides.get(key) == key
